@@ -163,7 +163,7 @@ def _reduce_roundtrip(poly):
     checks = [
         d1.op == "dg" and d2.op == "dg",
         vt.op == "DEC_Vt" and vtt.op == "t" and vtt.kids[0] is vt,
-        csq.op == "lstsq" and csq.kids[0] is icsq and icsq.op == "ICSQRT",
+        csq.op in ("lstsq", "pinv") and csq.kids[0] is icsq and icsq.op == "ICSQRT",
     ]
     if not all(checks):
         return False, f"chain does not have the shape L^-1/2 V^T C^1/2 C^-1/2 V L^1/2: {names}"
